@@ -96,3 +96,44 @@ func TestDiagTwice(t *testing.T) {
 	}
 	fmt.Fprintf(core.Stdout, "lens %d %d, differing lines shown %d hash %016x\n", len(tr[0]), len(tr[1]), n, lastHash)
 }
+
+// TestDiagSelf (SMSIM_DIAG_CHECK=<check seed>,<runs>): the worker's self-test
+// with traces: every run twice in this process, first differing lines printed.
+func TestDiagSelf(t *testing.T) {
+	sd := os.Getenv("SMSIM_DIAG_CHECK")
+	if sd == "" {
+		t.Skip()
+	}
+	var seed uint64
+	var runs int64
+	fmt.Sscanf(sd, "%d,%d", &seed, &runs)
+	shown := 0
+	for run := int64(0); run < runs && shown < 3; run++ {
+		var tr [2][]string
+		for i := 0; i < 2; i++ {
+			c := core.NewRunCtx(t, "C07", "quick", core.NewTape(core.RunSeed(seed, run)))
+			c.KeepTrace = true
+			Run(c)
+			tr[i] = c.Trace
+		}
+		n := 0
+		for i := 0; i < len(tr[0]) && i < len(tr[1]); i++ {
+			if tr[0][i] != tr[1][i] {
+				if n == 0 {
+					fmt.Fprintf(core.Stdout, "run %d (lens %d %d)\n", run, len(tr[0]), len(tr[1]))
+					for _, l := range tr[0] {
+						if len(l) > 3 && (l[:3] == "cfg" || l[:4] == "icfg") {
+							fmt.Fprintf(core.Stdout, "  %s\n", clip(l))
+						}
+					}
+					shown++
+				}
+				fmt.Fprintf(core.Stdout, " line %d:\n  A %s\n  B %s\n", i, clip(tr[0][i]), clip(tr[1][i]))
+				n++
+				if n > 4 {
+					break
+				}
+			}
+		}
+	}
+}
